@@ -24,12 +24,13 @@ pub const TEMPLATES: &[&str] = &[
     "cd -N", "pushd +N", "popd -N", "dirs +N", "history N", "fc -l N", "wait N", "getopts a o -a; OPTIND=N; getopts a o -a", "echo \"${v@N}\"", "echo \"${!N}\"", "echo $N ${N} ${#N}", "[[ N -eq N ]]; echo $?", "[ N -lt N ]; echo $?", "test N -gt N; echo $?",
     "case N in N) echo m;; esac", "[[ abc =~ N ]]; echo $?", "[[ abc == N ]]; echo $?", "echo ${v//N/N}", "echo ${v/#N}", "echo ${v%%N}", "printf '%q\\n' N", "echo $'\\xN' | od -c | head -1", "echo $'\\uN' | od -c | head -1", "echo -e '\\0N'",
     "x=${PS1@P}; PS1='N'; echo \"${PS1@P}\"", "PS1='\\D{N}'; echo \"${PS1@P}\"", "PS1='\\D{%N}'; echo \"${PS1@P}\"", "PS1='\\[\\e]0;N\\a\\]\\N'; echo \"${PS1@P}\"", "PS1='\\u@\\h:\\w\\$ \\!\\#\\j\\l\\s\\t\\T\\@\\A\\v\\V\\W N'; echo \"${PS1@P}\"", "PS1='\\N'; echo \"${PS1@P}\"", "PS4='N'; set -x; :", "IFS=N; set -- a b; echo \"$*\"", "OPTIND=N; getopts a o", "RANDOM=N; echo ok", "SECONDS=N; echo ok", "LINENO=N; echo $LINENO", "BASH_ARGV0=N",
+    "v='N'; echo \"${v^} ${v,} ${v^^} ${v,,} ${v~} ${v~~}\"", "v='N'; echo \"${v@U} ${v@u} ${v@L} ${v@Q} ${v@E} ${v@K}\"", "v='N'; echo \"${v^N} ${v,,N} ${#v} ${v:1} ${v: -1}\"", "declare -u z='N'; declare -l y='N'; declare -c w='N'; echo \"$z $y $w\"", "a=('N' 'N'); echo \"${a[@]^} ${a[@],} ${a[*]@u}\"", "set -- 'N'; echo \"${@^} ${*,} ${1^^}\"",
     "trap 'echo t' N", "trap - N", "enable -n N", "alias N=x", "unset N", "declare -n r=N; echo $r", "declare -A m; m[N]=1; echo ${m[N]}", "mapfile -n N a <<< x", "mapfile -s N a <<< x", "mapfile -O N a <<< x", "echo ${a[@]:N}", "echo ${x:N:N:N}",
     "complete -W 'N' c; compgen -W 'N' -- N", "compgen -A function N", "compgen -G 'N'", "printf -v 'a[N]' x", "printf '%(N)T\\n' N", "printf '%b\\n' 'N'", "echo \"$(( N ? N : N ))\"", "echo $(( N , N ))", "echo $(( -N ))", "echo $(( ~N ))", "echo $(( !N ))",
 ];
 
 /// operands substituted for `N` in templates besides the boundary numbers
-pub const OPERANDS: &[&str] = &["%Q", "%", "%5", "%E", "%O", "%:z", "%#Z", "%-", "%Y%", "", " ", "x", "*", "?", "[", "]", "[a", "(", ")", "\\", "'", "\"", "$", "$x", "${", "$(", "`", "a b", "é", "\u{1F600}", "-", "--", "-n", "~", "#", ";", "|", "&", "\n", "@", "!", "%", "^", "+(", "a{", "{,}", "//", "..", "1..2"];
+pub const OPERANDS: &[&str] = &["ßx", "ıx", "ſ", "ﬁ", "İ", "\u{212a}", "ẞ", "ǅ", "ŉa", "Ⱥ", "ɐ", "%Q", "%", "%5", "%E", "%O", "%:z", "%#Z", "%-", "%Y%", "", " ", "x", "*", "?", "[", "]", "[a", "(", ")", "\\", "'", "\"", "$", "$x", "${", "$(", "`", "a b", "é", "\u{1F600}", "-", "--", "-n", "~", "#", ";", "|", "&", "\n", "@", "!", "%", "^", "+(", "a{", "{,}", "//", "..", "1..2"];
 
 #[derive(Clone, Debug, Serialize, Deserialize, PartialEq)]
 pub enum Edit {
